@@ -20,6 +20,21 @@ def execute(job):
     return replay(job["cfg"], job["events"])
 
 
+def bnode_edges(g):
+    return sorted({(t[0]["v"], t[2]["v"]) for t in g if t[0]["k"] == "bnode" and t[2]["k"] == "bnode"})
+
+
+def match_finding(findings, job, trace, verdict, at):
+    e = job["events"][at - 1]
+    for f in findings:
+        c = f.get("class")
+        # the listed witness: THE graph with these blank-node edges (a relabelled copy of it is not recognised); any other graph is a new violation
+        if c and c["predicate"] == "bnode_edge_structure" and verdict in c["clauses"] and e["op"] == "iso" and e["g"] == e["h"] \
+                and bnode_edges(e["g"]) == sorted(tuple(x) for x in c["edges"]):
+            return f
+    return None
+
+
 def nontrivial(job, trace):
     return True
 
@@ -169,6 +184,19 @@ def run(out, tier, seed):
                 evs.append({"op": "skolem", "g": [[ren(x) for x in tr] for tr in g], "og": gi, "labels": delim})
         for e in evs:
             jobs.append({"cfg": {}, "events": [e]})
+    # graphs beyond the reach of the search over all bijections, judged through the renaming that made the copy: cubic graphs on 10 and 12
+    # blank nodes (every edge in both directions), the Petersen graph, the cube, a 10-cycle with chords - and marked variants of them
+    und2 = lambda es: es + [(b, a) for a, b in es]
+    big = {"cubic10": [(0, 2), (0, 6), (0, 9), (1, 2), (1, 3), (1, 4), (2, 7), (3, 5), (3, 6), (4, 6), (4, 8), (5, 7), (5, 9), (7, 8), (8, 9)],
+           "petersen": [(i, (i + 1) % 5) for i in range(5)] + [(i, i + 5) for i in range(5)] + [(5 + i, 5 + (i + 2) % 5) for i in range(5)],
+           "cube": [(a, b) for a in range(8) for b in range(8) if a < b and bin(a ^ b).count("1") == 1],
+           "frucht": [(0, 1), (1, 2), (2, 3), (3, 4), (4, 5), (5, 6), (6, 7), (7, 8), (8, 9), (9, 10), (10, 11), (11, 0), (0, 7), (1, 5), (2, 10), (3, 11), (4, 8), (6, 9)],
+           "mobius10": [(i, (i + 1) % 10) for i in range(10)] + [(i, i + 5) for i in range(5)]}
+    for name, es in big.items():
+        for marked in (False, True):
+            g = E([(a + 1, b + 1) for a, b in und2(es)]) + ([[B(1), Q, {"k": "iri", "v": "x"}]] if marked else [])
+            for r_ in range(4 if quick else 12):
+                jobs.append({"cfg": {}, "events": [{"op": "iso", "g": g, "h": g, "og": r_, "oh": r_ * 7 + 1, "relabel": perm_map(12, rng), "witness": True, "fam": name}]})
     # whether the search takes a wrong short cut depends on labels and insertion order: many relabelled copies of the hard families
     # (the canonicaliser orders colours by hashes of the terms, so the IRIs are varied too)
     prefixes = ["", "http://example.org/", "urn:x:", "http://a.example/ns#", "u:", "http://b.example/v/", "tag:t,2020:", "http://www.example.com/onto#"]
